@@ -537,6 +537,21 @@ func (m *Model) Step(blk *Block, obs Observer) {
 				m.Bank[h] = &BankRow{Amount: 5000e8, Used: -1, Requested: -1}
 			}
 			m.executeHolding(h, obs)
+		} else {
+			// a block without rates executes no pending conversion (S: C12, C07): whatever is
+			// waiting in the window the next graded block will look at must stay untouched here
+			from := uint32(0)
+			if L, ok := m.lastRatedBefore(h); ok {
+				from = L
+			}
+			for i := from; i < h; i++ {
+				for _, hb := range m.holding[i] {
+					if !m.executed[hb.hash] {
+						m.watchBatch(h, "C12", hb.txs, hb.hash)
+						m.watchBatch(h, "C07", hb.txs, hb.hash)
+					}
+				}
+			}
 		}
 		m.applyTxBlock(h, blk, obs)
 	}
